@@ -490,7 +490,7 @@ def judge(ck, outs, tag="hl2npu"):
             "weights": "weight / scale ranges of the operation are not the encoded sections of its depth slice",
             "dma": "DMA does not cover the sections it buffers / wrong destination",
             "clamp": "activation clamp is not the quantised RELU range of the OFM tensor",
-            "fm": "a feature map of the operation leaves the allocation of the tensor it was created from"}
+            "fm": "feature-map geometry is wrong (outside its tensor's allocation / overlapping OFM elements / kernel walks outside the declared IFM extent)"}
     seen = set()
     for o, si, i, line, d, rej in spec_bad:
         for k in rej:
